@@ -282,10 +282,10 @@ func (w *Worker) RunParamSkeleton(sk *Skeleton, property string, nonFinite bool)
 		switch v {
 		case VNil:
 			res.SawNil = true
-			bad = ctx.And(allFinite, ctx.Not(spec))
+			bad = ctx.And(allFinite, m.NoBadJSONNumber(), ctx.Not(spec))
 		case VErr:
 			res.SawErr = true
-			bad = ctx.And(allFinite, spec)
+			bad = ctx.And(allFinite, m.NoBadJSONNumber(), spec) // (an unparseable json.Number has no JSON meaning: panics only)
 		default:
 			bad = ctx.True
 		}
